@@ -487,14 +487,31 @@ fn unique_values(d: &MDoc) -> Vec<String> {
 }
 
 /// The unique values operation `i` tries to hold (adds: its document; updates: the merged document
-/// over the pre-existing one).
-fn attempted_unique_values(case: &Case, pre: &SeqState, i: usize) -> Vec<String> {
+/// over every version its target can have had in this run - the pre-existing one, the document an
+/// add of this very run was acknowledged for under that id, and what other updates returned).
+fn attempted_unique_values(case: &Case, pre: &SeqState, out: &RunOut, i: usize) -> Vec<String> {
     match &case.ops[i] {
         COp::Add(spec) => unique_values(&spec.fields()),
-        COp::Update { id, spec, mask } => match pre.docs.get(&(*id as u64 + 1)) {
-            Some(old) => unique_values(&merged(old, spec, *mask).0),
-            None => vec![],
-        },
+        COp::Update { id, spec, mask } => {
+            let id = *id as u64 + 1;
+            let mut olds: Vec<MDoc> = pre.docs.get(&id).cloned().into_iter().collect();
+            for (j, oj) in case.ops.iter().enumerate() {
+                match (oj, out.rets.get(j)) {
+                    (COp::Add(a), Some(Ret::AddOk(got))) if *got == id => olds.push(a.fields()),
+                    (COp::Update { id: other, .. }, Some(Ret::Updated(doc))) if j != i && *other as u64 + 1 == id => olds.push(doc.clone()),
+                    _ => {}
+                }
+            }
+            let mut v = vec![];
+            for old in &olds {
+                for k in unique_values(&merged(old, spec, *mask).0) {
+                    if !v.contains(&k) {
+                        v.push(k);
+                    }
+                }
+            }
+            v
+        }
         _ => vec![],
     }
 }
@@ -508,8 +525,8 @@ pub fn linearize_allowing_transient_conflicts(case: &Case, pre: &SeqState, out: 
     let muts: Vec<usize> = (0..case.ops.len()).filter(|i| is_mutation(&case.ops[*i])).collect();
     let overlap = |a: usize, b: usize| out.span[a].0 < out.span[b].1 && out.span[b].0 < out.span[a].1;
     let transient = |i: usize| {
-        let mine = attempted_unique_values(case, pre, i);
-        (0..case.ops.len()).any(|j| j != i && overlap(i, j) && attempted_unique_values(case, pre, j).iter().any(|k| mine.contains(k)))
+        let mine = attempted_unique_values(case, pre, out, i);
+        (0..case.ops.len()).any(|j| j != i && overlap(i, j) && attempted_unique_values(case, pre, out, j).iter().any(|k| mine.contains(k)))
     };
     'perm: for perm in permutations(muts.len()) {
         let order: Vec<usize> = perm.iter().map(|p| muts[*p]).collect();
@@ -637,10 +654,22 @@ pub fn rejected_update_released(case: &Case, pre: &SeqState, out: &RunOut) -> bo
         if !matches!(out.rets.get(i), Some(Ret::Conflict) | Some(Ret::OtherErr(_))) {
             continue;
         }
-        let Some(old) = pre.docs.get(&(*id as u64 + 1)) else { continue };
-        let (new, _) = merged(old, spec, *mask);
-        let kept = uniq(&new);
-        let dropped: Vec<String> = uniq(old).into_iter().filter(|k| !kept.contains(k)).collect();
+        // every version the target can have had in this run: the pre-existing document, the one an
+        // add of this run was acknowledged for under that id, what other updates of it returned
+        let did = *id as u64 + 1;
+        let mut olds: Vec<MDoc> = pre.docs.get(&did).cloned().into_iter().collect();
+        for (j, oj) in case.ops.iter().enumerate() {
+            match (oj, out.rets.get(j)) {
+                (COp::Add(a), Some(Ret::AddOk(got))) if *got == did => olds.push(a.fields()),
+                (COp::Update { id: other, .. }, Some(Ret::Updated(doc))) if j != i && *other as u64 + 1 == did => olds.push(doc.clone()),
+                _ => {}
+            }
+        }
+        let mut dropped: Vec<String> = vec![];
+        for old in &olds {
+            let kept = uniq(&merged(old, spec, *mask).0);
+            dropped.extend(uniq(old).into_iter().filter(|k| !kept.contains(k)));
+        }
         if dropped.is_empty() {
             continue;
         }
